@@ -11,10 +11,18 @@ PROP = {
     "rule": "import: chain of 1-6 imports of 1-2 pipelines, each new config = mutation of the last imported one (1-3 mutations out of 20 kinds, "
             "lists 0-5), 1/7 made invalid (unknown processor plugin, bad connector type, negative workers), store failure index 1-40 on one or "
             "several imports, positions of sources and destinations written between imports (3/4), plugin-only connector changes among the mutations, status writes in between; non-trivial = chain of >= 2 imports or a failed import; distinct = distinct lines",
-    "strength": "idempotent, store-level failure atomicity, position kept: full (all variants, states, configs, failing indices); convergence and "
-                "memory-level failure atomicity: decided per history by the monitor on the correspondence-tied model, not proved in general",
+    "strength": "convergence: full - for every code variant with the F5/F6 repair flags, every state reachable by API calls and earlier imports "
+                "(needed of the state: the references below the imported pipeline are intact, PlRefs - implied by the C14 invariant and "
+                "re-established by every successful import), every configuration the service accepts (cfgValid), no injected failure, "
+                "pipeline not running: ApplyPlan succeeds and Export of the result equals the configuration on every configuration field "
+                "(C15_import_converges, _reachable), the store is a copy of memory again (_store), entities outside old+new config untouched "
+                "and old ones not mentioned gone (C15_import_frame); idempotent, store-level failure atomicity, position kept: full (all "
+                "variants, states, configs, failing indices); memory-level failure atomicity: decided per history by the monitor on the "
+                "correspondence-tied model, not proved in general (F8 and rollback re-creation counterexamples)",
     "assumptions": ["one failing store operation per import (a validation failure plus a store failure during its rollback is outside the quantifier)",
                     "ids are unique within each list of a configuration (config.Validate enforces it)",
+                    "convergence across several pipelines: the ids of a configuration are not in use under another pipeline (CfgOwned; the real "
+                    "service prefixes connector and processor ids with the pipeline id) - not needed for chains of imports of one pipeline",
                     "ApplyPlan is presented with the hash of the plan computed just before (C16 covers stale plans)"],
 }
 
@@ -23,9 +31,16 @@ META = {
             "(execute, roll back the executed prefix incl. the failed action), transactionalImport and Plan/ApplyPlan: re-importing a converged "
             "configuration is a no-op with an empty plan (C15_import_idempotent, via Build(c,c)=[]), a failed import leaves the committed store "
             "untouched (C15_import_fail_store_atomic), a connector persisting with the same id and type keeps its position through successful, "
-            "failed and rolled-back imports for every failing store-operation index (C15_position_kept). Kernel-evaluated counterexamples for the "
-            "defects of the code as found (F5 aliasing remove loop, F6 condition, F8 commit failure, position lost on rollback re-creation).",
+            "failed and rolled-back imports for every failing store-operation index (C15_position_kept). Convergence is a theorem: every import "
+            "action has a closed-form effect and precondition without store failure (act_yields), the action list Build(old, c) run from a "
+            "state exporting to old satisfies every precondition in turn and ends in a memory that holds exactly c (converge_mem), so "
+            "ApplyPlan succeeds and Export = c for every accepted configuration from every reachable state (C15_import_converges, "
+            "C15_import_converges_reachable, store side, frame and invariant preservation). Kernel-evaluated counterexamples for the "
+            "defects of the code as found (F5 aliasing remove loop, F6 condition - the two flags the convergence theorem requires repaired -, "
+            "F8 commit failure, position lost on rollback re-creation).",
     "note": "Proved about the model; the code is tied by correspondence testing of the real provisioning service (finite sample) and regenerated "
-            "field-coverage facts. Convergence for every valid configuration is checked per history by the monitor, not proved in general.",
-    "technique": "Lean 4 proofs (builder laws, transaction-only writes, state-preservation of actions) + differential correspondence",
+            "field-coverage facts. Convergence is proved for the code variants with the F5/F6 repairs (the regenerated flags of the current tree) "
+            "and additionally checked per history by the monitor; memory-level failure atomicity is monitored only.",
+    "technique": "Lean 4 proofs (builder laws, closed-form action effects, per-entity induction over the action list, transaction-only "
+                 "writes, state-preservation of actions) + differential correspondence",
 }
